@@ -5,7 +5,7 @@
    side condition guarantees statically. *)
 From Coq Require Import List ZArith Bool Arith Lia Permutation.
 Import ListNotations.
-From DDP Require Import Lower.Opt2 Lower.Opt2Base Lower.Opt2Copy Lower.Opt2Safe.
+From DDP Require Import Lower.Opt2 Lower.Opt2Base Lower.Opt2Copy Lower.Opt2Fbase Lower.Opt2Safe.
 
 (* one elided parameter: its variable, the lender's variable, the buffer the copy-mode run gave the
    parameter, the lender's buffer *)
@@ -647,14 +647,17 @@ Section Sim.
            else ad = length (vars sc) /\ length (vars st3) = S ad /\
                 (Bhd = [] \/ exists b', Bhd = [b'] /\ b_pa b' = ad /\ is_const mt k i = true /\
                     (In (b_al b') (map b_al BB) \/
-                     exists x, a = AVal (EVar x) /\ lookup e x = Some (b_al b') /\ ~ In (b_al b') (map b_pa BB))))).
+                     exists x, a = AVal (EVar x) /\ lookup e x = Some (b_al b') /\ ~ In (b_al b') (map b_pa BB)))) /\
+          fbase st3 = fbase sc /\
+          (forall b', In b' Bhd -> In (b_al b') (map b_al BB) \/
+             exists x, lookup e x = Some (b_al b') /\ fbase sc <= b_al b' /\ existsb (is_ref_of x) all = false)).
   Proof.
     intros all k p i a e ce X BB sc HS HB.
     destruct (pref p) eqn:Ep; destruct a as [ex|x].
     - left. exists EStuck. intros. cbn. rewrite Ep. auto.
     - destruct (lookup e x) as [ad|] eqn:El.
       + right. exists ad, sc, []. split; [intros; cbn; rewrite Ep, El; auto|].
-        split; [auto|split; [auto|split; [lia|]]]. split; eauto.
+        split; [auto|split; [auto|split; [lia|]]]. split; [split; eauto|split; [reflexivity|intros b' []]].
       + left. exists EStuck. intros. cbn. rewrite Ep, El. auto.
     - (* value parameter *)
       pose proof (eval_patch X BB e ex sc HS HB) as Hev.
@@ -668,7 +671,8 @@ Section Sim.
         right. exists ad, st2, []. pose proof (new_var_spec _ _ _ _ En) as (Ead & N2 & N3 & N4 & N5).
         split; [intros; cbn [bind_params]; rewrite Ep, Hev, E1; cbn [bind]; rewrite En, (new_var_patch _ _ _ _ _ En); auto|].
         split; [eapply Sep_new_var_int; eauto|split; [eapply Binv_new_var; eauto|split; [rewrite N2, app_length, Ev; lia|]]].
-        split; [congruence|split; [rewrite N2, app_length, Ev, Ead, Ev; cbn; lia|auto]].
+        split; [split; [congruence|split; [rewrite N2, app_length, Ev, Ead, Ev; cbn; lia|auto]]|].
+        split; [rewrite (new_var_fbase _ _ _ _ En); eapply eval_fbase; eauto|intros b' []].
       + destruct (is_const mt k i && negb tmp && may_elide e all ex st1) eqn:Ec.
         * (* elided *)
           apply andb_true_iff in Ec. destruct Ec as [Ec Ec3]. apply andb_true_iff in Ec. destruct Ec as [Ec1 Ec2]. apply negb_true_iff in Ec2. subst tmp.
@@ -692,9 +696,13 @@ Section Sim.
             rewrite (new_var_patch _ _ _ _ _ En). auto. }
           split; [eapply Sep_new_var_ptr; [|exact En]; apply Sep_add_x; eauto|].
           split; [exact BP1|split; [rewrite N2, app_length, Hv; lia|]].
-          split; [congruence|split; [rewrite N2, app_length, Hv, Ead, Hv; cbn; lia|]].
-          right. exists b'. split; [auto|split; [auto|split; [auto|]]].
-          destruct BP2 as [BP2|[BP2 BP3]]; [left; exact BP2|]. right. exists x. cbn [b_al b']. rewrite BP2. auto.
+          split; [split; [congruence|split; [rewrite N2, app_length, Hv, Ead, Hv; cbn; lia|]]|].
+          { right. exists b'. split; [auto|split; [auto|split; [auto|]]].
+            destruct BP2 as [BP2|[BP2 BP3]]; [left; exact BP2|]. right. exists x. cbn [b_al b']. rewrite BP2. auto. }
+          split; [rewrite (new_var_fbase _ _ _ _ En); eapply alloc_fbase; eauto|].
+          intros b0 [<-|[]]. destruct BP2 as [BP2|[BP2 BP3]]; [left; exact BP2|]. right. exists x. cbn [b_al b']. rewrite BP2.
+          unfold may_elide in Ec3. rewrite Lx in Ec3. apply andb_true_iff in Ec3. destruct Ec3 as [Q1 Q2].
+          apply Nat.leb_le in Q1. apply negb_true_iff in Q2. auto.
         * (* copied or claimed, in both modes *)
           assert (Hl : live st1 l) by (eapply rv_read_live; eauto).
           pose proof (claim_or_copy_patch BB st1 l tmp B1 Hl) as Hcc.
@@ -711,7 +719,8 @@ Section Sim.
                   change (may_elide e all ex (patch BB st1)) with (may_elide e all ex st1);
                   rewrite Ec, Hcc, E2; cbn [bind]; rewrite En, (new_var_patch _ _ _ _ _ En); auto|].
           split; [eapply Sep_new_var_ptr; eauto|split; [eapply Binv_new_var; eauto|split; [rewrite N2, app_length, C2, Ev; lia|]]].
-          split; [congruence|split; [rewrite N2, app_length, C2, Ev, Ead, C2, Ev; cbn; lia|auto]].
+          split; [split; [congruence|split; [rewrite N2, app_length, C2, Ev, Ead, C2, Ev; cbn; lia|auto]]|].
+          split; [rewrite (new_var_fbase _ _ _ _ En), (claim_or_copy_fbase _ _ _ _ _ E2); eapply eval_fbase; eauto|intros b' []].
     - left. exists EStuck. intros. cbn. rewrite Ep. auto.
   Qed.
 
@@ -748,7 +757,7 @@ Section Sim.
       + intros j p Hj. destruct j; discriminate Hj.
       + intros j j' p p' a Hj. destruct j; discriminate Hj.
     - destruct args as [|a args]; [cbn; reflexivity|]. inv Hnd.
-      destruct (bind_head all k p i a e ce X BB sc HS HB) as [(er & Her)|(ad & st3 & Bhd & Heq & S3 & B3 & L3 & Hp)].
+      destruct (bind_head all k p i a e ce X BB sc HS HB) as [(er & Her)|(ad & st3 & Bhd & Heq & S3 & B3 & L3 & Hp & _)].
       { destruct (Her ps args) as [-> ->]. reflexivity. }
       destruct (Heq ps args) as [-> ->].
       specialize (IH (S i) args e ((pname p, ad) :: ce) X (Bhd ++ BB) st3 S3 B3 H2).
